@@ -6,7 +6,7 @@ from hypothesis import strategies as st
 
 from mv import gen_atoms, model_atoms as M
 from mv.quiet import silenced
-from mv.runner import EnumPart, HypPart, Violation
+from mv.runner import FuzzPart, EnumPart, HypPart, Violation
 
 PROPERTY = "C10"
 RULE = ("Exhaustive: a fixed family of structures with n = 1..5 atoms (quick) / 1..6 (thorough) - chain, star, ring, two "
@@ -200,4 +200,5 @@ def random_oracle(case, stats):
 PARTS = [
     EnumPart("exhaustive-small", enum_cases, oracle, chunk=500),
     HypPart("random", lambda tier: random_case(tier), random_oracle, {"quick": 3000, "thorough": 30000}),
+    FuzzPart("coverage-guided-random", "random", runs=5000),
 ]
